@@ -665,6 +665,9 @@ def fam_memo(tier, seed):
                 # more than 65536 positions / cache entries / bytes in one parse (real parsers only)
                 g.huge_extra.append(list("ay" * 70000))
                 g.huge_extra.append(list("aax" * 30000 + "ay" * 20000 + "b"))
+            if name == "closure_backtrack" and len(sub) in (0, len(memoizable)):
+                # ... and every one of them asked again after the first alternative failed at the very end
+                g.huge_extra.append(list("a," * 70000 + "y"))
             if well_formed(g):
                 out.append(g)
     return out
@@ -819,6 +822,15 @@ def fam_pos(tier, seed):
              position=True, leftrec=True),
         Rule("N", Lit("n"), position=True)], root="E", maxlen=maxlen + 1,
         alpha=["n", "+", " "], meta={"shape": "leftrec_replay"}))
+    # offsets beyond 32 bits: an extern rule skips 2^32 + 5 bytes in one step, the ranges that follow must be exact
+    g = Grammar("pos_%04d" % len(out), [
+        Rule("S", Seq(Call("X", "x"), Call("T", "t"), Call("U", "u"), Opt(Call("M", "m"))), export=True, no_skip_ws=True, position=True),
+        ExternRule("X", {"o": "skip4g", "path": "verif_common::oracles::ext_skip_4g", "nullable": False}),
+        Rule("T", Seq(Lit("b"), Lit("c")), no_skip_ws=True, position=True),
+        Rule("U", Seq(Lit("d"), Clo(Lit("d"))), no_skip_ws=True, position=True, string=True),
+        Rule("M", Lit("e"), no_skip_ws=True, position=True, memoize=True)], root="S", maxlen=1,
+        alpha=["a", "b"], meta={"shape": "offsets_beyond_32_bits", "synthetic": ["@4g:61:6263646465"]})
+    out.append(g)
     return out
 
 
@@ -979,13 +991,17 @@ def fam_inc(tier, seed):
     out = []
     for name, body in sites:
         for skip in (True, False):
-            g = Grammar("inc_%04d" % len(out), [Rule("S", body, export=True, no_skip_ws=not skip, position=True)] + inc_rules(),
+            import copy
+            g = Grammar("inc_%04d" % len(out), [Rule("S", copy.deepcopy(body), export=True, no_skip_ws=not skip, position=True)] + inc_rules(),
                         root="S", maxlen=maxlen, meta={"shape": "%s_%s" % (name, "skip" if skip else "noskip"), "twin": "orig"})
             g.alpha = ["a", "b", "(", ")", ",", " "]
             g.maxlen = 3 if tier == "quick" else 4
             add_extras(g, random.Random(seed * 7919 + 90 + len(out)), 12 if tier == "quick" else 60, 4, 8)
             if not well_formed(g):
                 continue
+            if (len(out) // 2) % 2 == 1:
+                # in every other pair the fields appear in the reverse of their alphabetical order
+                rename(g, {}, {"x": "q", "y": "b", "z": "m", "rest": "a_rest", "inner": "k_inner"})
             t = inline(g)
             t.id = "inc_%04d" % (len(out) + 1)
             t.meta = dict(g.meta)
@@ -1281,6 +1297,29 @@ def fam_bad(tier, seed):
     for nm in ("self", "Self", "super", "crate", "1abc", "9"):
         mk("R12_rule_named_%s" % nm, [Rule("S", Call(nm, "x"), export=True), Rule(nm, Lit("a"))], "error", badident=True, answer_only=True)
         mk("R12_field_named_%s" % nm, [Rule("S", Call("A", nm), export=True), A()], "error", badident=True, answer_only=True)
+    # ... in every role and rule kind (each template names things on its own)
+    for nm in ("self", "1abc"):
+        ctx = [
+            ("string_rule_two_fields", [Rule("S", Call("X", "s"), export=True), Rule("X", Seq(Call("A", "a"), Call("A", nm)), string=True), A()]),
+            ("string_rule_one_field", [Rule("S", Call("X", "s"), export=True), Rule("X", Seq(Lit("c"), Call("A", nm)), string=True), A()]),
+            ("string_rule_type_defined_later", [Rule("S", Call("X", "s"), export=True), Rule("X", Call(nm, "a"), string=True), Rule(nm, Lit("a"))]),
+            ("field_in_closure", [Rule("S", Clo(Seq(Call("A", nm), Lit(","))), export=True), A()]),
+            ("field_in_choice_position", [Rule("S", Choice(Call("A", nm), Call("A", "b")), export=True, position=True), A()]),
+            ("field_in_memoized_rule", [Rule("S", Call("M", "m"), export=True), Rule("M", Opt(Call("A", nm)), memoize=True), A()]),
+            ("field_in_leftrec_rule", [Rule("S", Call("L", "l"), export=True),
+                                       Rule("L", Choice(Seq(Call("L", nm, boxed=True), Lit("x")), Lit("b")), leftrec=True)]),
+            ("override_of_rule", [Rule("S", Call("O", "o"), export=True), Rule("O", Seq(Lit("("), Call(nm, "@"), Lit(")"))), Rule(nm, Lit("a"))]),
+            ("enum_override_type", [Rule("S", Call("O", "o"), export=True), Rule("O", Choice(Call("A", "@"), Call(nm, "@"))), A(), Rule(nm, Lit("b"))]),
+            ("char_rule_name", [Rule("S", Call(nm, "c"), export=True), CharRule(nm, [("range", "a", "b")])]),
+            ("extern_rule_name", [Rule("S", Call(nm, "e"), export=True),
+                                  ExternRule(nm, {"o": "digits", "path": "verif_common::oracles::ext_digits", "nullable": False})]),
+            ("included_rule_name", [Rule("S", Seq(Lit("("), Inc(nm)), export=True), Rule(nm, Call("A", "a")), A()]),
+            ("field_through_include", [Rule("S", Seq(Lit("("), Inc("I")), export=True), Rule("I", Call("A", nm)), A()]),
+            ("unused_rule_name", [Rule("S", Call("A", "a"), export=True), A(), Rule(nm, Lit("z"))]),
+            ("multi_type_field", [Rule("S", Choice(Call("A", nm), Call("B", nm)), export=True), A(), Rule("B", Lit("b"))]),
+        ]
+        for cn, rules in ctx:
+            mk("R12_%s_%s" % (cn, nm), rules, "error", badident=True, answer_only=True)
     for nm in ("type", "match", "fn", "Box", "async", "try", "dyn"):
         mk("R12_ok_rule_named_%s" % nm, [Rule("S", Call(nm, "x"), export=True), Rule(nm, Lit("a"))], "code")
         mk("R12_ok_field_named_%s" % nm, [Rule("S", Call("A", nm), export=True), A()], "code")
@@ -1525,6 +1564,19 @@ def fam_types(tier, seed):
         rules += [Rule(k, Lit("k%d" % j), position=(j % 2 == 0)) for j, k in enumerate(ch)]
         g = Grammar("x", rules, meta={"shape": "keywords_chunk_%d" % (i // 8)})
         g.alpha = ["k"]
+        add(g)
+    # rule names that differ only in case or in the placement of underscores, on every kind of rule that gets
+    # generated items named after it (type, module, parse function, cache entry)
+    twins = ["ExprList", "Expr_list", "exprList", "Exprlist", "EXPRLIST", "expr_list", "Ab", "ab", "AB", "A_b", "a_b", "A__b"]
+    for variant in ("memoize", "leftrec", "plain", "string", "position"):
+        rules = [Rule("S", Seq(*[Call(n_, "f%d" % i) for i, n_ in enumerate(twins)]), export=True)]
+        for i, n_ in enumerate(twins):
+            body = Choice(Seq(Call(n_, "l", boxed=True), Lit("x")), Lit("b%d" % i)) if variant == "leftrec" else Seq(Lit("t%d" % i), Opt(Call("Unit", "u")))
+            rules.append(Rule(n_, body, memoize=(variant == "memoize"), leftrec=(variant == "leftrec"), string=(variant == "string"),
+                              position=(variant == "position")))
+        rules.append(Rule("Unit", Lit("u")))
+        g = Grammar("x", rules, meta={"shape": "name_twins_" + variant})
+        g.alpha = ["a"]
         add(g)
     # a field named like a rule: fine for structs, aliases and enums; a unit struct of that name is read as a constant
     # in the templates' binding patterns (known finding)
@@ -1901,7 +1953,8 @@ def fam_names(tier, seed):
     rnd = random.Random(seed * 7919 + 97)
     out = []
     n = 3 if tier == "quick" else 12
-    schemes = ["long", "case_twins", "digits_underscores", "lower_case", "field_like_rule", "reversed", "two_exports"]
+    schemes = ["long", "long_snake", "case_twins", "digits_underscores", "lower_case", "field_like_rule", "reversed", "two_exports",
+               "fields_reverse_alphabetical"]
     for fam in ("fields", "lr", "inc", "ws", "pos", "ops"):
         src = [g for g in FAMILIES[fam](tier, seed) if not g.meta.get("user_rs")
                and not any(getattr(r, "checks", None) and any(c["path"].startswith("crate::") for c in r.checks) for r in g.rules)]
@@ -1914,6 +1967,19 @@ def fam_names(tier, seed):
                 if sch == "long":
                     rmap = {x: x + "_" + "Xy" * 30 for x in names}
                     fmap = {f: f + "_" + "y" * 40 for f in fields}
+                elif sch == "long_snake":
+                    rmap = {x: "r%s_long_snake_case_name_without_any_capital_letter" % x.lower() for x in names}
+                    if len(set(rmap.values())) != len(rmap):
+                        continue
+                elif sch == "fields_reverse_alphabetical":
+                    # the order of appearance of the fields is the reverse of their alphabetical order
+                    order = []
+                    for e in peg.all_exprs(h):
+                        if isinstance(e, Call) and e.field and e.field != "@" and e.field not in order:
+                            order.append(e.field)
+                    if len(order) < 2:
+                        continue
+                    fmap = {f: "%s_%s" % ("zyxwvutsrq"[i] if i < 10 else "a" * i, f) for i, f in enumerate(order)}
                 elif sch == "case_twins":
                     if len(names) < 2:
                         continue
